@@ -635,7 +635,7 @@ func (o *obs) history(pool []s2.Point, nops int) {
 					c.Violate("EdgeCrosser.history", fmt.Sprintf("crosser answered %v at step %d of %s, stateless CrossingSign says %v", s2.Crossing(code), k, strings.Join(kinds, ""), stateless), rep)
 				}
 			} else {
-				wantE := want == s2.Cross || (want == s2.MaybeCross && s2.VertexCrossing(a, b, cc, d))
+				wantE := want == s2.Cross || (want == s2.MaybeCross && o.vcOracle(a, b, cc, d))
 				if (code == 11) != s2.EdgeOrVertexCrossing(a, b, cc, d) {
 					c.Violate("EdgeCrosser.history(EdgeOrVertex)", fmt.Sprintf("crosser EdgeOrVertex answer %v at step %d of %s differs from the stateless function", code == 11, k, strings.Join(kinds, "")), rep)
 				}
@@ -675,6 +675,26 @@ func (o *obs) triageAttack(a, b, d s2.Point) {
 	if ex := exactDet(a, b, d); ex != t {
 		o.c.Violate("triage_sound", fmt.Sprintf("triageSign=%d but the exact determinant sign is %d", t, ex), map[string]interface{}{"a": a.Vector, "b": b.Vector, "c": d.Vector, "bits": [][]string{coords(a), coords(b), coords(d)}})
 	}
+}
+
+// vcOracle: VertexCrossing as documented, on the oracle's exact signs: false for a degenerate
+// edge or without a shared vertex; true for the same edge in either direction; otherwise
+// OrderedCCW(referenceDir(O), far end of CD, far end of AB, O) around the shared vertex O.
+func (o *obs) vcOracle(a, b, cc, d s2.Point) bool {
+	if a == b || cc == d {
+		return false
+	}
+	switch {
+	case a == cc:
+		return b == d || o.or.occw(s2.VerifC03ReferenceDir(a), d, b, a)
+	case b == d:
+		return o.or.occw(s2.VerifC03ReferenceDir(b), cc, a, b)
+	case a == d:
+		return b == cc || o.or.occw(s2.VerifC03ReferenceDir(a), cc, b, a)
+	case b == cc:
+		return o.or.occw(s2.VerifC03ReferenceDir(b), d, a, b)
+	}
+	return false
 }
 
 // quad: stateless functions on one quadruple, [T] and [S].
@@ -730,6 +750,9 @@ func (o *obs) quad(a, b, cc, d s2.Point, label string) {
 	if ev != (cs == s2.Cross || (cs == s2.MaybeCross && vc)) {
 		c.Violate("EdgeOrVertexCrossing.consistency", "EdgeOrVertexCrossing differs from (Cross, or Maybe and VertexCrossing)", rep)
 	}
+	if ev != s2.EdgeOrVertexCrossing(a, b, d, cc) || ev != s2.EdgeOrVertexCrossing(b, a, cc, d) {
+		c.Violate("EdgeOrVertexCrossing.reversal", "EdgeOrVertexCrossing changes when an edge is reversed (c->d against d->c)", rep)
+	}
 	// VertexCrossing laws
 	if vc != s2.VertexCrossing(a, b, d, cc) || vc != s2.VertexCrossing(b, a, cc, d) || vc != s2.VertexCrossing(b, a, d, cc) {
 		c.Violate("VertexCrossing.reversal", "VertexCrossing changes when an edge is reversed", rep)
@@ -754,17 +777,7 @@ func (o *obs) quad(a, b, cc, d s2.Point, label string) {
 	}
 	// oracle for VertexCrossing itself: OrderedCCW on exact signs
 	if a != b && cc != d && shared {
-		var w bool
-		switch {
-		case a == cc:
-			w = b == d || o.or.occw(s2.VerifC03ReferenceDir(a), d, b, a)
-		case b == d:
-			w = o.or.occw(s2.VerifC03ReferenceDir(b), cc, a, b)
-		case a == d:
-			w = b == cc || o.or.occw(s2.VerifC03ReferenceDir(a), cc, b, a)
-		default:
-			w = o.or.occw(s2.VerifC03ReferenceDir(b), d, a, b)
-		}
+		w := o.vcOracle(a, b, cc, d)
 		if w != vc {
 			ra, rb := s2.VerifC03ReferenceDir(a), s2.VerifC03ReferenceDir(b)
 			c.Violate(blame("VertexCrossing.exact", [3]s2.Point{b, a, ra}, [3]s2.Point{d, a, b}, [3]s2.Point{ra, a, d}, [3]s2.Point{cc, a, b}, [3]s2.Point{ra, a, cc},
@@ -1008,7 +1021,7 @@ func (o *obs) collinearFamily(plane int) {
 						c.Violate(blame("CrossingSign.exact", quadTriples(a, b, cc, d)...), fmt.Sprintf("CrossingSign=%v but the four-orientation criterion in exact arithmetic with the documented perturbation says %v", got, want), replayQuad(a, b, cc, d))
 					}
 					if (ia+ib+ic+id)%7 == 0 {
-						wantE := want == s2.Cross || (want == s2.MaybeCross && s2.VertexCrossing(a, b, cc, d))
+						wantE := want == s2.Cross || (want == s2.MaybeCross && o.vcOracle(a, b, cc, d))
 						if s2.EdgeOrVertexCrossing(a, b, cc, d) != wantE {
 							c.Violate(blame("EdgeOrVertexCrossing.consistency", quadTriples(a, b, cc, d)...), "EdgeOrVertexCrossing is not (Cross, or Maybe and VertexCrossing) of the exact criterion", replayQuad(a, b, cc, d))
 						}
@@ -1078,6 +1091,64 @@ func (o *obs) collinearFamily(plane int) {
 	}
 }
 
+// refdirFamily: two edges meeting at a vertex O where a far endpoint is BIT-FOR-BIT
+// referenceDir(O), its antipode, or a point exactly/nearly collinear with O and referenceDir(O):
+// the sweep of OrderedCCW then starts or ends exactly on an edge, and only there the closed/open
+// ends of the wedge rule matter. All eight arrangements (which case of VertexCrossing fires:
+// a==c, a==d, b==c, b==d; both roles of the two edges), stateless ([T] + laws through quad) and
+// through one crosser (two-argument calls and chains, against the stateless function and the
+// oracle's VertexCrossing).
+func (o *obs) refdirFamily(O s2.Point, extra []s2.Point) {
+	c, rng := o.c, o.rng
+	R := s2.VerifC03ReferenceDir(O)
+	far := []s2.Point{R, {Vector: R.Mul(-1)}}
+	for _, st := range [][2]float64{{0.5, 1}, {-0.5, 1}, {1, 0.25}, {1, -0.25}, {rng.Range(-1, 1), rng.Range(-1, 1)}} {
+		if p, ok := norm(O.Mul(st[0]).Add(R.Mul(st[1]))); ok && p != O {
+			far = append(far, p) // on the great circle through O and referenceDir(O), up to rounding
+		}
+	}
+	far = append(far, perturbUlp(rng, R))
+	far = append(far, extra...)
+	far = append(far, randPoint(rng))
+	c.Class("refdir-family")
+	for i, P := range far {
+		for j, Q := range far {
+			if i == j || P == O || Q == O {
+				continue
+			}
+			if i > 1 && j > 1 && rng.Intn(3) != 0 {
+				continue // always keep the pairs that involve referenceDir(O) or its antipode
+			}
+			arr := [][4]s2.Point{{O, P, O, Q}, {O, P, Q, O}, {P, O, O, Q}, {P, O, Q, O}}
+			for k, q := range arr {
+				o.quad(q[0], q[1], q[2], q[3], fmt.Sprintf("refdir arrangement %d", k))
+				// through one crosser: two-argument call, then the reversed edge as a chain
+				a, b, cc, d := q[0], q[1], q[2], q[3]
+				if antipodal(a, b) || antipodal(cc, d) {
+					continue
+				}
+				e := s2.NewEdgeCrosser(a, b)
+				want := o.or.crossing(a, b, cc, d) == s2.Cross || (o.or.crossing(a, b, cc, d) == s2.MaybeCross && o.vcOracle(a, b, cc, d))
+				g1 := e.EdgeOrVertexCrossing(cc, d)
+				e.RestartAt(d)
+				g2 := e.EdgeOrVertexChainCrossing(cc)
+				g3 := e.EdgeOrVertexCrossing(cc, d) // continues the chain at cc
+				c.Evals += 3
+				if g1 != want || g3 != want {
+					c.Violate(blame("VertexCrossing.exact", quadTriples(a, b, cc, d)...), fmt.Sprintf("crosser EdgeOrVertexCrossing=%v/%v, the vertex rule on the exact signs says %v", g1, g3, want), replayQuad(a, b, cc, d))
+				}
+				if g2 != g1 {
+					c.Violate("EdgeOrVertexCrossing.reversal", "the crosser answers differently for c->d and for the chain d->c", replayQuad(a, b, cc, d))
+				}
+			}
+		}
+	}
+	pool := append([]s2.Point{O, O, R}, far...)
+	for r := 0; r < 2; r++ {
+		o.history(pool, 6+rng.Intn(20))
+	}
+}
+
 func bitsPoint(x, y, z uint64) s2.Point {
 	return s2.Point{Vector: r3.Vector{X: math.Float64frombits(x), Y: math.Float64frombits(y), Z: math.Float64frombits(z)}}
 }
@@ -1098,6 +1169,8 @@ func (o *obs) corpus() {
 	cc = bitsPoint(0, 0x3c91a62633145c00, 0x3ff0000000000000)
 	d = bitsPoint(0xbfe44caae4eca5e9, 0x3fe711b60ba5f296, 0x3fd1dc2089338037)
 	o.quad(a, b, cc, d, "corpus antipodal AB")
+	o.refdirFamily(s2.Point{Vector: r3.Vector{X: 1, Y: 0, Z: 0}}, nil)
+	o.refdirFamily(bitsPoint(0x3fe90f7bd8cd8e08, 0xbfcc55408c56be46, 0xbfe2987f204089a9), nil)
 	e := s2.NewChainEdgeCrosser(a, b, cc)
 	if got, st := e.ChainCrossingSign(d), s2.CrossingSign(a, b, cc, d); got != st {
 		o.c.Violate("EdgeCrosser.history", "crosser and stateless CrossingSign differ on the antipodal corpus edge", replayQuad(a, b, cc, d))
@@ -1198,6 +1271,9 @@ func run(c *vkit.Collector, rng *vkit.Rng, budget int) {
 			cand = cand[:6]
 		}
 		o.acvCycle(pool[bidx], cand)
+		if h%20 == 0 {
+			o.refdirFamily(pool[bidx], []s2.Point{pool[(bidx+1)%len(pool)]})
+		}
 		o.twinAttack(pool)
 	}
 	for k := 0; k < 1500*budget; k++ {
